@@ -34,11 +34,23 @@ def read_cache(mapper, path, records_per_chunk):
     # filesystem the dataset is opened from
     fs = DirFileSystem(path=mapper.root, fs=mapper.fs)
 
+    def decode_cache(read):
+        # a cache file that is incomplete (interrupted or concurrent write) or
+        # otherwise unreadable is the same as no cache
+        try:
+            return decode(read(), records_per_chunk=records_per_chunk, fs=fs)
+        except (ValueError, KeyError, TypeError, AttributeError) as e:
+            raise CachingError(f"invalid cache for {path}") from e
+
     if local.is_file():
-        return decode(local.read_text(), records_per_chunk=records_per_chunk, fs=fs)
+        try:
+            return decode_cache(local.read_text)
+        except CachingError:
+            # fall back to the cache next to the image, if any
+            pass
 
     if remote in mapper:
-        return decode(mapper[remote].decode(), records_per_chunk=records_per_chunk, fs=fs)
+        return decode_cache(lambda: mapper[remote].decode())
 
     raise CachingError(f"no cache found for {path}")
 
